@@ -77,6 +77,12 @@ def var_key(e):
     k = e.get("k")
     if k == "Ref" and e.get("d") in ("local", "param", "slocal"):
         return ("v", e["n"], e.get("id"))
+    if k == "Mem" and (e.get("t") or "").startswith("char") and "[" in (e.get("t") or ""):
+        # a char array field of a record reached through a global/static pointer (current_ed_buffer->fname): tracked
+        # only from a copy into it up to the next call that could write it (see elem())
+        b = strip(e["b"])
+        if b.get("k") == "Ref" and b.get("d") in ("global", "static"):
+            return ("f", "%s->%s" % (b["n"], e.get("f")), None)
     if k == "Un" and e.get("op") == "&":
         return var_key(e["e"])
     if k == "Sub":  # &buf[k] / buf[k] as the start of a copy
@@ -89,7 +95,7 @@ def var_key(e):
 def is_exact_start(e):
     """True when expression e designates the start of the buffer (strcpy(dest,..) replaces it)."""
     e = strip(e)
-    if isinstance(e, dict) and e.get("k") == "Ref":
+    if isinstance(e, dict) and e.get("k") in ("Ref", "Mem"):
         return True
     return False
 
@@ -104,6 +110,7 @@ class Analysis:
         self.sinks = []  # (block, idx, call node, arg index, kind, tags)
         self.calls = []  # (block, idx, call node, [tags per arg])
         self.returns = set()
+        self.lp_flags = {}   # int local assigned from legal_path(p) -> key of p
         self.check_fn = check_fn
 
     # ---- evaluation
@@ -157,6 +164,9 @@ class Analysis:
         if k == "Mem":
             if (e.get("rec"), e.get("f")) in Tables.INTERNAL_FIELDS:
                 return frozenset([I])
+            fk = var_key(e)
+            if fk is not None and fk[0] == "f" and fk in st:
+                return st[fk]
             return frozenset([("U", "field " + show(e))])
         if k == "Call":
             fn = e.get("fn")
@@ -258,6 +268,9 @@ class Analysis:
             return st
         if fn in PURE or fn in SINKS or fn == self.check_fn or fn == "legal_path":
             return st
+        # any other callee may rewrite a record reached through a global pointer
+        if any(k0[0] == "f" for k0 in st):
+            st = {k0: v0 for k0, v0 in st.items() if k0[0] != "f"}
         # unknown callee: any tracked char buffer passed through a non-const char* parameter is overwritten
         pt = (self.protos.get(fn) or {}).get("pt")
         for i, a in enumerate(args):
@@ -308,6 +321,18 @@ class Analysis:
         for n in list(walk(e, True)):
             k = n.get("k")
             if k == "Asg" and n["op"] == "=":
+                r0, l0 = strip(n["R"]), strip(n["L"])
+                if r0.get("k") == "Call" and r0.get("fn") == "legal_path" and l0.get("k") == "Ref" and l0.get("d") == "local" and r0.get("args"):
+                    # `ok = legal_path (p)`: a later branch on `ok` is a branch on the call (as long as p is not reassigned:
+                    # an assignment to p drops the association below)
+                    vk = var_key(r0["args"][0])
+                    if vk is not None:
+                        self.lp_flags[l0.get("id")] = vk
+                else:
+                    vk = var_key(l0) if l0.get("k") == "Ref" else None
+                    if vk is not None:
+                        for fid in [fid for fid, v in self.lp_flags.items() if v == vk]:
+                            self.lp_flags.pop(fid, None)
                 st = self.assign(st, n["L"], self.tags(n["R"], st))
             elif k == "Decl":
                 for v in n.get("vars", []):
@@ -339,6 +364,11 @@ class Analysis:
                 tested, nonnull = c0["L"], (c0["op"] == "!=") == truth
             elif lv == 0:
                 tested, nonnull = c0["R"], (c0["op"] == "!=") == truth
+        elif c0.get("k") == "Ref" and c0.get("id") in self.lp_flags and c0.get("d") == "local":
+            if truth:
+                st = dict(st)
+                st[self.lp_flags[c0.get("id")]] = frozenset([L])
+            return st
         elif c0.get("k") == "Call" and c0.get("fn") == "legal_path":
             if truth:
                 vk = var_key(c0["args"][0])
